@@ -355,7 +355,7 @@ add('C07','hunt-methods-shared-slice',ME,"	return slices.Clone(getMethodIndexEnt
 add('C15','hunt-header-key-case',MA,"		acceptKey: strings.ToLower(key), // mime.ParseMediaType 返回的参数名称均为小写","		acceptKey: key,",'violation:C15.R7')
 
 # ---------------- round 5
-addm('C10','r5-adjacency-from-segment',[(SY,"		lastFlag = s[len(s)-1] == endByte\n","\n"),(SY,"		segs = append(segs, seg)\n	}","		segs = append(segs, seg)\n		lastFlag = seg.Endpoint\n	}")],'violation:C10.R15')
+# (r5-adjacency-from-segment: superseded by hunt4-adjacency-from-the-endpoint-flag after D62)
 add('C12','r5-recovery-wipes-headers',RO,"				r.recoverFunc(w, err)","				clear(w.Header())\n				r.recoverFunc(w, err)",'violation:C12.R13')
 add('C13','r5-lookup-resets-params',TR,"		return nil, tree.notFound, false","		ctx.Reset()\n		return nil, tree.notFound, false",'violation:C13.R13')
 
@@ -418,6 +418,13 @@ add('C03','auto-end-test-looks-at-the-last-byte',SG,"	if endIndex == l-1 {","	if
 add('C17','auto-brace-test-before-the-back-off',SG,"		for l > 0 && !utf8.RuneStart(seg.Value[l]) {\n			l--\n		}\n		if l > 0 && seg.Value[l-1] == endByte { // 参数之后必须要有一个或以上的普通字符\n			return 0\n		}\n		return l","		if l > 0 && seg.Value[l-1] == endByte { // 参数之后必须要有一个或以上的普通字符\n			return 0\n		}\n		for l > 0 && !utf8.RuneStart(seg.Value[l]) {\n			l--\n		}\n		return l",'violation:C17.R11')
 add('C02','auto-benign-range-over-int',SG,"	for i := 0; i < l; i++ {\n		prev := state","	for i := range l {\n		prev := state",'silent')
 add('C02','auto-benign-empty-texts-first',SG,"	startIndex := -10\n	endIndex := -10\n	state := endByte","	if l == 0 {\n		return 0\n	}\n	startIndex := -10\n	endIndex := -10\n	state := endByte",'silent')
+
+# ---------------- fourth hunt: D61-D64 re-introduced
+add('C13','hunt4-routers-hands-out-the-list',GR,"return slices.Clone(g.routers) }","return g.routers }",'violation:C13.R16')
+addm('C10','hunt4-adjacency-from-the-last-byte',[(SY,"		lastFlag = seg.Type != String && seg.Suffix == \"\" // 以参数结尾，/x} 最后的 } 只是普通字符。\n",""),(SY,"		seg, err := i.NewSegment(s)\n","		lastFlag = s[len(s)-1] == endByte\n		seg, err := i.NewSegment(s)\n")],'violation:C10.R15')
+add('C10','hunt4-adjacency-from-the-endpoint-flag',SY,"		lastFlag = seg.Type != String && seg.Suffix == \"\" // 以参数结尾，/x} 最后的 } 只是普通字符。","		lastFlag = seg.Endpoint",'violation:C10.R15')
+add('C03','hunt4-literals-through-the-brace-rules',SG,"	case seg.Type == String: // 字符串节点中没有参数，其中的 { 和 } 只是普通字符，比如 /p/{a 与 /p/{b，按字节比较即可。","	case seg.Type == String && len(seg.Value) < 0:",'violation:C03.R23')
+add('C01','hunt4-group-name-unchecked',SG,"		if strings.IndexByte(seg.Name, '>') >= 0 { // 名称会成为正则表达式中的分组名称，其中的 > 会提前结束该名称。","		if strings.IndexByte(seg.Name, '>') >= len(seg.Name) {",'violation:C01.R24')
 
 for pid,entries in C.items():
     os.makedirs(os.path.join(base,pid),exist_ok=True)
